@@ -363,7 +363,8 @@ func verifyOne(prog *Program, specs *Specs, key, tags string, d *Discharger, kno
 		ur.insts = d.DischargeUnit(ur.res)
 		// vacuity probe: with "assert false" at every exit, at least one exit must be reachable
 		pr := VerifyUnitKnown(prog, specs, f, ct, UnitOpts{ProbeExit: true}, nil)
-		pd := NewDischarger(d.TimeoutMs, false)
+		pd := NewDischarger(1500, false)
+		pd.NoRace = true
 		pis := pd.DischargeUnit(pr)
 		ur.probe = "vacuous"
 		for _, in := range pis {
@@ -594,6 +595,11 @@ func report(root, prop, tier string, seed int, cfg *PropConfig, runs []*unitRun,
 	fmt.Printf("%s %s: %d units, %d paths, claimed %d, discharged %d, violations %d, unclaimed-failing %d, new-discharged %d, %.1fs\n",
 		prop, tier, len(runs), totalPaths, claimed, discharged, len(violations), len(unclaimed), len(undecidedNew), time.Since(t0).Seconds())
 	if verbose {
+		for _, r := range runs {
+			if r.ms > 3000 {
+				fmt.Printf("  slow unit: %s [%s] %dms\n", r.key, r.tags, r.ms)
+			}
+		}
 		for _, id := range unclaimed {
 			fmt.Println("  unclaimed failing:", id)
 		}
